@@ -73,6 +73,8 @@ def gen_case(rng, idx):
         s = plants.gen_source_spec(rng, "fcs", 1, kinds=("fuel_cell_system",))
         case["spec"] = s
         lo, hi = curve_range(s["fuel_cell"]["curve"])
+        if max(lo, 0.05) > min(hi, 0.95):
+            lo, hi = 0.3, 0.9
         case["powers"] = [float(np.round(rng.uniform(max(lo, 0.05), min(hi, 0.95)) * s["rated"] * 0.9, 3)) for _ in range(n)]
         if rng.random() < 0.3:
             case["powers"][-1] = 0.0
@@ -80,6 +82,8 @@ def gen_case(rng, idx):
         s = plants.gen_source_spec(rng, "cg", 1, kinds=("coges",))
         case["spec"] = s
         lo, hi = curve_range(s["cogas"]["curve"])
+        if max(lo, 0.26) > min(hi, 0.95):
+            lo, hi = 0.3, 0.9
         case["powers"] = [float(np.round(rng.uniform(max(lo, 0.26), min(hi, 0.95)) * s["rated"] * 0.9, 3)) for _ in range(n)]
     case["dt"] = [float(rng.choice([1.0, 60.0, 900.0])) for _ in case["powers"]]
     return case
